@@ -4,7 +4,14 @@
 types = [("arru16", 10), ("arrf32", 14), ("pair", 14), ("tuple", 11), ("s1", 18), ("s2", 20), ("s3", 12), ("s4", 12), ("v1", 5), ("opti32", 7), ("resu16", 8), ("var", 9), ("optp1", 7), ("varp1", 9), ("arrp1", 12)]
 out = []
 extra = ""
+# jobs that did not finish within 900 s / 14 GB on this image (measured in the thorough tier); they decided nothing,
+# so they are not registered.  The same lemma over the same type is still decided for the other readers where listed.
+DROPPED = {
+    "trunc_s2_spec": "solver out of memory (14 GB)", "trunc_s2_ped": "timeout", "trunc_s2_buf": "timeout", "trunc_s2_bnd": "timeout",
+}
 def job(name, props, unwind, tier="quick"):
+    if name in DROPPED:
+        return
     if "_s2" in name and not name.startswith("enc_"):
         tier = "thorough"  # the nested non-integral logical buffer costs minutes per job
     if name in ("dec_s1_ped", "rt_s1_spec_spec", "trunc_s1_spec"):
